@@ -557,6 +557,23 @@ func genElem(rt *rapid.T, t reflect.Type, r *c11Rendered, inMap bool) (C11Val, s
 
 // ---- texts that must be rejected ----
 
+// unseparatedTexts lists item lists in which two items are NOT separated by a
+// comma: adjacent quoted literals, text right after a closing quote, a quote
+// right after a bare item, items separated by a tab / newline / CRLF.  Each
+// is an error for every slice and set kind on the unmodified tree (checked for
+// string, numeric, bool, duration, complex, named and nested slices and the
+// string set).  A plain space is deliberately absent: it is part of a bare
+// item ("a b" is one string item).  g is an acceptable item text without
+// blanks, quotes or commas.
+func unseparatedTexts(g string) []string {
+	q := `"` + g + `"`
+	return []string{
+		q + " " + q + "," + g, q + q, q + g, q + g + "," + g, g + q, g + "," + q + q, g + "," + q + " " + q,
+		g + "\t" + g, g + "\n" + g, g + "," + g + "\n" + g, g + "\r\n" + g, q + "\t" + q, q + "\n" + q,
+		"`" + g + "` `" + g + "`", "`" + g + "`" + g,
+	}
+}
+
 // goodScalarText is an acceptable text for a non-string scalar type.
 func goodScalarText(t reflect.Type) string {
 	switch t.Kind() {
@@ -623,8 +640,13 @@ func badTexts(t reflect.Type) []string {
 		for inner.Kind() == reflect.Slice {
 			inner = inner.Elem()
 		}
+		g := goodScalarText(inner)
 		if inner.Kind() == reflect.String {
-			return out // any list of words is a list (of lists) of strings
+			g = "ab"
+		}
+		out = append(out, unseparatedTexts(g)...)
+		if inner.Kind() == reflect.String {
+			return out // any comma-separated list of words is a list (of lists) of strings
 		}
 		if t.Elem().Kind() != reflect.String {
 			for _, b := range badTexts(t.Elem()) {
@@ -641,7 +663,7 @@ func badTexts(t reflect.Type) []string {
 	case reflect.Map:
 		switch {
 		case t.Elem().Kind() == reflect.Struct:
-			return []string{"a,a", `a,"a"`, `"abc`, `'a'`}
+			return append([]string{"a,a", `a,"a"`, `"abc`, `'a'`}, unseparatedTexts("ab")...)
 		case t.Elem().Kind() == reflect.Slice:
 			return []string{":v", "a:b:c", `a:"x`, `"a:b`}
 		case t.Elem().Kind() == reflect.String:
